@@ -41,9 +41,9 @@ type c03Case struct {
 	Prefix []int  `json:"choices"`
 }
 
-var c03ShapeNames = []string{"single", "alternative", "body+attachment", "body+embed", "body+attachment(AttachReader)", "body+embed(EmbedReadSeeker)"}
+var c03ShapeNames = []string{"single", "alternative", "body+attachment", "body+embed", "body+attachment(AttachReader)", "body+embed(EmbedReadSeeker)", "single 8bit body", "8bit body + 8bit alternative + 7bit attachment"}
 
-const c03NShapes = 6
+const c03NShapes = 8
 
 // faultCtl decides, through the chooser, how each content producer behaves; Off disables all faults (used
 // for the reference rendering after the run).
@@ -120,6 +120,9 @@ func (f *faultCtl) producer(name string, content []byte) func(io.Writer) (int64,
 
 func c03Build(i, shape int, f *faultCtl) *mail.Msg {
 	m := mail.NewMsg()
+	if shape >= 6 {
+		m.SetEncoding(mail.NoEncoding) // 8bit: content is written as is
+	}
 	_ = m.From(hx.Sender(i))
 	_ = m.To(hx.Rcpt(i, 0))
 	_ = m.Cc(hx.Rcpt(i, 1))
@@ -152,6 +155,13 @@ func c03Build(i, shape int, f *faultCtl) *mail.Msg {
 	case 5:
 		data := bytes.Repeat([]byte{0x89, 'P', 'N', 'G', byte(i), '\n', 'S'}, 1300)
 		m.EmbedReadSeeker(fmt.Sprintf("rs%d.png", i), bytes.NewReader(data))
+	case 7:
+		html := []byte(fmt.Sprintf("<html><body><p>8bit HTML body of message %d: ünï</p></body></html>\r\n", i))
+		m.AddAlternativeWriter(mail.TypeTextHTML, f.producer(nm+".alt", html))
+		txt := []byte(strings.Repeat(fmt.Sprintf("seven bit attachment line of message %d\r\n", i), 20))
+		att := &mail.File{Name: fmt.Sprintf("att%d.txt", i), Header: textproto.MIMEHeader{}, Writer: f.producer(nm+".att", txt)}
+		mail.WithFileEncoding(mail.EncodingUSASCII)(att)
+		m.SetAttachments([]*mail.File{att})
 	}
 	return m
 }
@@ -561,7 +571,7 @@ func init() {
 	vf.Register(&vf.Check{
 		ID: "C03", Title: "only complete messages are committed; IsDelivered tells the truth",
 		Run: func(r *vf.Run) {
-			r.SetRule("batches of 1..3 messages over shapes {single, alternative, body+attachment, body+embed, body+attachment from a reader, body+embed from a read-seeker}; (history) the same Msg objects delivered once over a fault-free connection BEFORE the judged Send; (history) the same Msg objects sent again over a fault-free connection, unchanged or after all their recipients were removed (second attempt refused before MAIL FROM); choice points: every content producer {ok, fail before first byte, fail after half — with a generic error, with io.EOF, with a wrapped io.EOF, with an error whose text reads like a 4yz / 5yz reply}, S/MIME signing of single-part messages {off, fails at render time before the first byte}, transport failure in each DATA phase at {never, first content byte, inside headers, inside a part body, just before the end, inside the end-of-data marker, inside the content of the last part}, server reply at NOOP/MAIL/RCPT/DATA/RSET {ok,4yz,5yz,drop,multi-line ok,421+disconnect} and at end-of-data {250,4yz,5yz,drop,251,multi-line 250}; all vectors with <= k deviations; oracle: server commit log vs. reference rendering of the same Msg objects; distinct by (configuration, choice vector)")
+			r.SetRule("batches of 1..3 messages over shapes {single, alternative, body+attachment, body+embed, body+attachment from a reader, body+embed from a read-seeker, single 8bit body, 8bit body + 8bit alternative + 7bit attachment}; (history) the same Msg objects delivered once over a fault-free connection BEFORE the judged Send; (history) the same Msg objects sent again over a fault-free connection, unchanged or after all their recipients were removed (second attempt refused before MAIL FROM); choice points: every content producer {ok, fail before first byte, fail after half — with a generic error, with io.EOF, with a wrapped io.EOF, with an error whose text reads like a 4yz / 5yz reply}, S/MIME signing of single-part messages {off, fails at render time before the first byte}, transport failure in each DATA phase at {never, first content byte, inside headers, inside a part body, just before the end, inside the end-of-data marker, inside the content of the last part}, server reply at NOOP/MAIL/RCPT/DATA/RSET {ok,4yz,5yz,drop,multi-line ok,421+disconnect} and at end-of-data {250,4yz,5yz,drop,251,multi-line 250}; all vectors with <= k deviations; oracle: server commit log vs. reference rendering of the same Msg objects; distinct by (configuration, choice vector)")
 			r.Assume("the reference rendering is WriteTo on the same Msg after Send with faults disabled (default file encodings; repeatability itself is C11)",
 				"the transport's final CRLF after content that does not end in CRLF is not part of the message")
 			type job struct {
